@@ -39,7 +39,7 @@ pub fn run_property(id: &str, opts: &Opts) -> i32 {
     let (parts, assumptions, extra): (Vec<PartReport>, &[&str], Value) = match id {
         "C01" => (vec![run_part::<paths::C01>(opts)], A_PLAN, Value::Null),
         "C02" => (vec![run_part::<paths::C02>(opts)], A_PLAN, Value::Null),
-        "C03" => (vec![run_part::<paths::C03>(opts)], A_PLAN, Value::Null),
+        "C03" => (vec![run_part::<paths::C03>(opts), run_part::<paths::C03Star>(opts)], A_PLAN, Value::Null),
         "C04" => (vec![run_part::<paths::C04>(opts)], A_PLAN, Value::Null),
         "C05" => (vec![run_part::<paths::C05>(opts)], A_PLAN, Value::Null),
         "C10" => (
@@ -153,6 +153,7 @@ pub fn replay(opts: &Opts, doc: &Value) -> i32 {
     try_part!(paths::C01);
     try_part!(paths::C02);
     try_part!(paths::C03);
+    try_part!(paths::C03Star);
     try_part!(paths::C04);
     try_part!(paths::C05);
     try_part!(c06::C06);
